@@ -44,13 +44,21 @@ claim('C01',
 
 claim('C02',
       'TLA+ spec XlSyntax (AST, Render, MinParen, Erase); TLC enumerates AST families, renders the text and states the expected tree; '
-      'dump replayed through FormulaParser.parse and XLFormula; seeded random ASTs validated by TLC (Trace_Parse)',
+      'dump replayed through FormulaParser.parse and XLFormula; seeded random ASTs validated by TLC (Trace_Parse); the tokenizer as '
+      'an explicit state machine (XlTokenizer, one action per branch of the character loop and per pass): TLC proves it refines '
+      'the syntax spec on the well-formed families (RefinesSyntax) and runs it on every short string over 6 alphabets, finished '
+      'and failed states replayed into ExcelParser.getTokens; recorded tokenizations validated by Trace_Tokens, which reuses the '
+      'machine actions',
       'Exhaustive over: every atom kind (numbers in 5 spellings, strings, booleans, all 7 error literals, references in every $ / '
       'sheet-qualification spelling incl. quoted names, ranges, calls) in every one of 15 contexts nested two levels deep, every '
       'string of length <= 2 (thorough 3) over the tokenizer delimiter alphabet in 6 contexts, call arities 0..4 with nested calls '
       'and leading @, every gap class x gap kind (blank, two blanks, newline; leading and trailing included) and a missing "=". The '
       'parse tree is walked through public node attributes and must equal the AST with parentheses erased; seeded random ASTs of up '
-      'to 14 nodes with random styles are parsed and validated by TLC, which also re-renders each tree (generator held to the spec).',
+      'to 14 nodes with random styles are parsed and validated by TLC, which also re-renders each tree (generator held to the spec). '
+      'Tokenizer machine: every string of length <= 4 (thorough 5; 5/6 for the error alphabet) over six 5-8 character alphabets '
+      '(numbers/percent/scientific, calls, quoting modes, comparators, array constants, error literals) with and without "=", '
+      'malformed text included (the machine fails exactly where the code raises IndexError); every formula of the fixture '
+      'workbooks as the reader hands it to the tokenizer, generated formulas, and a one-character mutilation of each.',
       COMMON_NOTE + ' Left open: empty arguments, array constants, intersection/union, structured and external references, '
                     'numbers not in stored form, -x% association, double percent. Known finding F-C02-01 (% encoding precedence).',
       '§7 C02')
